@@ -21,7 +21,6 @@ def run(v):
         b = subprocess.run(["go", "build", "./..."], cwd=dst, env=ENV, capture_output=True, text=True)
         if b.returncode != 0:
             return v["name"], "NOCOMPILE " + b.stderr[-300:]
-        t = subprocess.run(["go", "vet", "./internal/...", "./pkg/..."], cwd=dst, env=ENV, capture_output=True, text=True)
         r = subprocess.run([V + "/bin/upfcheck", "-prop", "all", "-repo", dst, "-verif", V, "-out", os.path.join(d, "ev")], env=ENV, capture_output=True, text=True)
         keys = [l.split("key=")[1].split()[0] for l in r.stdout.splitlines() if "key=" in l and "KNOWN-FINDING" not in l]
         return v["name"], keys
@@ -35,7 +34,7 @@ for f in sorted(glob.glob(os.path.join(V, "benign", "*", "ref*.patch.diff"))):
 only = sys.argv[1] if len(sys.argv) > 1 else None
 if only: cat = [v for v in cat if v["name"] == only or v["name"].startswith(only)]
 bad = 0
-with concurrent.futures.ThreadPoolExecutor(max_workers=8) as ex:
+with concurrent.futures.ThreadPoolExecutor(max_workers=int(os.environ.get('JOBS', '10'))) as ex:
     for name, res in ex.map(run, cat):
         ok = res == []
         bad += 0 if ok else 1
